@@ -499,6 +499,112 @@ theorem asm_names_prefixed :
     (GoBT.Gen.opCodeStrings.all fun p => p.1.startsWith "OP_") = true :=
   TableFacts.asm_names_prefixed
 
+/-! ### assembly round trip -/
+
+/-- elements whose ASM token converts back: any bare (non-push) opcode, and any push of two or more bytes written
+    in its minimal form (a one-byte push is rendered as if its byte were an opcode: the documented exception) -/
+def Tok.asmOk : Tok → Prop
+  | .op b => ¬ (1 ≤ b.toNat ∧ b.toNat ≤ 0x4e)
+  | .push p => 2 ≤ p.length ∧ p.length < 2 ^ 32
+
+theorem opName_facts (b : UInt8) : opName b ≠ "" ∧ opValue? (opName b) = some b.toNat := by
+  have hlt : b.toNat < 256 := UInt8.toNat_lt b
+  have hb : UInt8.ofNat b.toNat = b := by
+    apply UInt8.toNat_inj.mp; simp [Nat.mod_eq_of_lt hlt]
+  have h1 := TableFacts.asm_names_nonempty
+  have h2 := TableFacts.asm_tables_inverse
+  simp only [List.all_eq_true, List.mem_range] at h1 h2
+  have a := h1 b.toNat hlt
+  have c := h2 b.toNat hlt
+  rw [hb] at a c
+  simp only [Bool.and_eq_true, beq_iff_eq, bne_iff_ne, ne_eq] at a c
+  exact ⟨a, c.2⟩
+
+/-- a hex string is never an opcode name -/
+theorem opValue_hexEnc (p : Bytes) (hp : p ≠ []) : opValue? (hexEnc p) = none := by
+  unfold opValue?
+  cases hf : GoBT.Gen.opCodeStrings.find? (fun q => q.1 == hexEnc p) with
+  | none => rfl
+  | some q =>
+    exfalso
+    have hmem := List.mem_of_find?_eq_some hf
+    have heq : q.1 = hexEnc p := by
+      have := List.find?_some hf
+      simpa using this
+    have hall := TableFacts.asm_names_first_char
+    simp only [List.all_eq_true] at hall
+    have hq := hall q hmem
+    rw [heq] at hq
+    cases p with
+    | nil => exact hp rfl
+    | cons x xs =>
+      have hx : x.toNat < 256 := UInt8.toNat_lt x
+      simp only [hexEnc, String.toList_ofList, List.flatMap_cons, List.cons_append] at hq
+      rw [hexVal_hexDigit _ (by omega)] at hq
+      simp at hq
+
+theorem hexEnc_ne_empty (p : Bytes) (hp : p ≠ []) : hexEnc p ≠ "" := by
+  intro h
+  have := congrArg String.toList h
+  cases p with
+  | nil => exact hp rfl
+  | cons x xs => simp [hexEnc] at this
+
+/-- one element: its ASM token converts back to its encoding -/
+theorem fromAsmToken_tok (t : Tok) (ht : t.asmOk) : fromAsmToken (asmToken false t.part) = t.enc := by
+  cases t with
+  | op b =>
+    simp only [Tok.asmOk] at ht
+    obtain ⟨hne, hval⟩ := opName_facts b
+    have hlt : b.toNat < 256 := UInt8.toNat_lt b
+    have hb : UInt8.ofNat b.toNat = b := by
+      apply UInt8.toNat_inj.mp; simp [Nat.mod_eq_of_lt hlt]
+    simp only [Tok.part, asmToken, Bool.false_and, Bool.false_eq_true, ↓reduceIte, fromAsmToken, hne, hval, ht, Tok.enc, hb]
+  | push p =>
+    obtain ⟨h2, h32⟩ := ht
+    have hp : p ≠ [] := by intro e; subst e; simp at h2
+    have hnot1 : ∀ b, p ≠ [b] := by intro b e; subst e; simp at h2
+    have htok : asmToken false p = hexEnc p := by
+      unfold asmToken
+      split
+      · next b => exact absurd rfl (hnot1 b)
+      · simp
+    simp only [Tok.part, htok, fromAsmToken, hexEnc_ne_empty p hp, ↓reduceIte, opValue_hexEnc p hp, hexDec_hexEnc, Tok.enc]
+
+/-- **Assembly round trip.**  For every script that is a sequence of bare opcodes and minimal pushes of at least two
+    bytes (each below 2^32), is not empty and is not a data script: ToASM then NewFromASM returns the script. -/
+theorem asm_round_trip (ts : List Tok) (enc : Bytes) (hts : ∀ t ∈ ts, t.ok ∧ t.asmOk) (henc : encToks ts = some enc)
+    (hne : enc ≠ []) (hnd : isDataScript enc = false) :
+    ∃ toks, toAsmTokens enc = some toks ∧ fromAsmTokens toks = some enc := by
+  obtain ⟨enc', he', hdec⟩ := decode_toks ts (fun t ht => (hts t ht).1)
+  rw [henc] at he'
+  cases he'
+  have hparts : decodeParts enc = (ts.map Tok.part, true) := hdec enc.length (Nat.le_refl _)
+  refine ⟨ts.map (fun t => asmToken false t.part), ?_, ?_⟩
+  · unfold toAsmTokens
+    have : enc.isEmpty = false := by cases enc with | nil => exact absurd rfl hne | cons _ _ => rfl
+    simp [this, hparts, hnd, List.map_map, Function.comp_def]
+  · clear hdec hparts hne hnd
+    induction ts generalizing enc with
+    | nil => simp only [encToks, Option.some.injEq] at henc; subst henc; rfl
+    | cons t ts ih =>
+      simp only [encToks, bind, Option.bind] at henc
+      cases hte : t.enc with
+      | none => rw [hte] at henc; cases henc
+      | some e =>
+        rw [hte] at henc
+        simp only at henc
+        cases hr : encToks ts with
+        | none => rw [hr] at henc; cases henc
+        | some er =>
+          rw [hr] at henc
+          simp only [pure, Option.some.injEq] at henc
+          subst henc
+          have h1 := fromAsmToken_tok t (hts t (by simp)).2
+          rw [hte] at h1
+          have h2 := ih er (fun x hx => hts x (by simp [hx])) hr
+          simp only [List.map_cons, fromAsmTokens, h1, h2, bind, Option.bind, pure]
+
 /-! ### non-vacuity -/
 example : ∃ enc, encodeParts [[0xaa], List.replicate 76 1, List.replicate 256 2] = some enc ∧
     decodeParts enc = ([[0xaa], List.replicate 76 1, List.replicate 256 2], true) :=
